@@ -1,5 +1,6 @@
 import DrummerVerif.Lemmas.C02Events
 import DrummerVerif.Lemmas.Stamp
+import DrummerVerif.Model.Agent
 /-! C01 building blocks on the fleet side: what executing a CREATE achieves -/
 namespace Drummer
 
@@ -35,4 +36,43 @@ theorem healed_quiet (cx : Ctx) (draws : List Nat) (hr : cx.repairs = []) (hk : 
 #print axioms healed_quiet
 #print axioms execCreate_restore_runs
 #print axioms execCreate_join_runs
+theorem run?_dataPut (h : Host) (s r : Nat) (v : Int) (x : Nat) : (h.dataPut s r v).run? x = h.run? x := by
+  unfold Host.dataPut Host.run?; rfl
+
+/-- the fleet half of the loop model follows the agent's launch / join / restore table (M-AGENT `instantiate`, compared
+    row by row with real NodeHosts): on a host not running the shard, a CREATE request for which the table says
+    "started" leaves a running replica, one for which it says "ignored" changes nothing -/
+theorem execCreate_follows_table (l : Loop) (h : Host) (r : Request) (hnot : h.run? r.shardId = none)
+    (hlaunch : r.join = false → r.restore = false → (l.group? r.shardId).isSome = false)
+    (hnp : instantiate r.join r.restore (h.dataGet r.shardId r.instantiateReplicaId).isSome ≠ .panic) :
+    if (instantiate r.join r.restore (h.dataGet r.shardId r.instantiateReplicaId).isSome).started then
+      ∃ l' h', l.execCreate h r = Loop.setHost l' h' ∧ (h'.run? r.shardId).map (·.id) = some r.instantiateReplicaId
+    else l.execCreate h r = l := by
+  unfold Loop.execCreate
+  simp only [hnot, Option.isSome_none, Bool.false_eq_true, if_false]
+  cases hj : r.join <;> cases hr : r.restore <;> simp only [hj, hr] at hnp hlaunch ⊢
+  · -- launch
+    cases hd : h.dataGet r.shardId r.instantiateReplicaId with
+    | some ap => simp [hd, instantiate] at hnp
+    | none =>
+      have hg := hlaunch trivial trivial
+      simp only [instantiate, InstOutcome.started, Option.isSome_none, Bool.false_eq_true, if_false, if_true,
+        Bool.and_false, Bool.not_false, Bool.and_true, hg]
+      refine ⟨_, _, rfl, ?_⟩
+      rw [run?_dataPut]
+      exact congrArg _ (run?_setRun h ⟨r.shardId, r.instantiateReplicaId, 0⟩)
+  · -- restore
+    cases hd : h.dataGet r.shardId r.instantiateReplicaId with
+    | some ap =>
+      simp only [instantiate, InstOutcome.started, Option.isSome_some, if_true, Bool.not_false, Bool.and_true]
+      refine ⟨_, _, rfl, ?_⟩
+      exact congrArg _ (run?_setRun h ⟨r.shardId, r.instantiateReplicaId, ap⟩)
+    | none => simp [instantiate, InstOutcome.started]
+  · -- join
+    simp only [instantiate, InstOutcome.started, if_true, Bool.not_true, Bool.and_false, Bool.false_eq_true, if_false]
+    refine ⟨_, _, rfl, ?_⟩
+    rw [run?_dataPut]
+    exact congrArg _ (run?_setRun h ⟨r.shardId, r.instantiateReplicaId, _⟩)
+  · simp [instantiate] at hnp
+
 end Drummer
